@@ -112,7 +112,7 @@ fn build_call(w: &W11, t: &Target, dflt: (ResourceAddress, Decimal), default_tre
         };
         let outer = G::Tuple(vec![t.fwd_receiver(w), G::V(ManifestValue::String { value: t.ident.clone() }), G::V(to_mv(&bytes))]);
         let low = lower(&outer, w.w.a.addr, dflt);
-        let call = InstructionV1::CallFunction(CallFunction { package_address: ManifestPackageAddress::Static(w.fwd_pkg), blueprint_name: FWD_BP.to_string(), function_name: "fwd".into(), args: low.value });
+        let call = InstructionV1::CallFunction(CallFunction { package_address: ManifestPackageAddress::Static(w.fwd_pkg), blueprint_name: FWD_BP.to_string(), function_name: if t.kind == CallKind::FwdProof { "fwd_proof".into() } else { "fwd".into() }, args: low.value });
         let shown = scrypto_decode::<ScryptoValue>(&bytes).map(|v| format!("{v:?}")).unwrap_or_else(|_| "(not SBOR)".into());
         Some((low.preamble, call, shown, mc_core::hex(&bytes)))
     } else {
@@ -149,7 +149,7 @@ fn receivers(w: &W11) -> BTreeMap<&'static str, Vec<(&'static str, NodeId, CallK
     m.insert("Package", vec![("wat_package", g(w.wat_pkg.into()), Method)]);
     m.insert("Metadata", vec![("fall", g(w.fall.into()), Metadata), ("A", g(w.w.a.addr.into()), Metadata)]);
     m.insert("RoleAssignment", vec![("fall", g(w.fall.into()), RoleAssignment), ("royalty_comp", g(w.royalty_comp.into()), RoleAssignment)]);
-    m.insert("ComponentRoyalty", vec![("royalty_comp", g(w.royalty_comp.into()), Royalty), ("faucet", g(FAUCET.into()), Royalty)]);
+    m.insert("ComponentRoyalty", vec![("royalty_comp", g(w.royalty_comp.into()), Royalty)]);
     m.insert("TransactionTracker", vec![("transaction_tracker", g(TRANSACTION_TRACKER.into()), Method)]);
     m
 }
@@ -231,18 +231,22 @@ fn proofs_of(w: &W11, role: Role) -> BTreeSet<NonFungibleGlobalId> {
     p
 }
 
-fn full_manifest(w: &W11, preamble: &[InstructionV1], call: InstructionV1) -> TransactionManifestV1 {
+/// `lock_fee(B)`; preamble; call; `A.deposit_batch(ENTIRE_WORKTOP)`. The fee comes from account B so that the fee
+/// vault of A (the account under test) is untouched when the call under test runs.
+fn full_manifest(w: &W11, preamble: &[InstructionV1], call: Option<InstructionV1>) -> TransactionManifestV1 {
     let a = w.w.a.addr;
     let mut ins: Vec<InstructionV1> = Vec::with_capacity(preamble.len() + 3);
-    ins.push(InstructionV1::CallMethod(CallMethod { address: ManifestGlobalAddress::Static(a.into()), method_name: "lock_fee".into(), args: to_mv(&(dec!(500),)) }));
+    ins.push(InstructionV1::CallMethod(CallMethod { address: ManifestGlobalAddress::Static(w.w.b.addr.into()), method_name: "lock_fee".into(), args: to_mv(&(dec!(500),)) }));
     ins.extend(preamble.iter().cloned());
-    ins.push(call);
+    if let Some(call) = call {
+        ins.push(call);
+    }
     ins.push(InstructionV1::CallMethod(CallMethod {
         address: ManifestGlobalAddress::Static(a.into()),
         method_name: "deposit_batch".into(),
         args: ManifestValue::Tuple { fields: vec![ManifestValue::Custom { value: ManifestCustomValue::Expression(ManifestExpression::EntireWorktop) }] },
     }));
-    TransactionManifestV1 { instructions: ins, blobs: Default::default(), object_names: Default::default() }
+    TransactionManifestV1 { instructions: ins, blobs: w.blobs.clone(), object_names: Default::default() }
 }
 
 fn exec_cfg_c11() -> ExecutionConfig {
@@ -340,22 +344,82 @@ struct Dflt {
     class: String,
     success: bool,
     reached: bool,
+    /// the receiver / module does not accept this call form at all (refused before the arguments are looked at):
+    /// only the default tuple is sent
+    refused_form: bool,
+    hand_registered: bool,
 }
 
 fn contexts(w: &W11) -> Vec<Defaults> {
-    let res = [w.w.f18, XRD, w.fall, w.nfall, w.w.nf, w.x.pool_unit, w.pool2_unit, w.poolm_unit, w.x.stake_unit, w.x.claim_nft, w.w.rc, w.w.f2, w.w.f0];
+    let res = [w.w.f18, XRD, w.fall, w.nfall, w.w.nf, w.x.pool_unit, w.pool2_unit, w.poolm_unit, w.x.stake_unit, w.x.claim_nft, w.own_stake_unit, w.own_claim_nft, w.w.rc, w.w.f2, w.w.f0];
+    let base = |r: ResourceAddress| Defaults { res: r, amount: dec!(1), string: "a".into(), nf_id: 2, some: false, prefer_b: false };
     let mut out = vec![];
-    for some in [false, true] {
-        for r in res {
-            out.push(Defaults { res: r, amount: dec!(1), string: "a".into(), nf_id: 2, some });
-        }
+    for r in res {
+        out.push(base(r));
     }
-    for s in ["name", "minter", "_owner_"] {
+    for r in res {
+        out.push(Defaults { some: true, ..base(r) });
+    }
+    // a fresh non-fungible id (mint), enough XRD for a validator, account B as the subject, known strings
+    for r in [w.nfall, w.w.nf, w.w.f18] {
+        out.push(Defaults { nf_id: 77, ..base(r) });
+    }
+    out.push(Defaults { amount: dec!(2000), ..base(XRD) });
+    for r in [w.w.f18, w.nfall, w.fall] {
+        out.push(Defaults { prefer_b: true, ..base(r) });
+        out.push(Defaults { prefer_b: true, nf_id: 5, ..base(r) });
+    }
+    for s in ["name", "minter", "_owner_", "level"] {
         for r in [w.w.f18, w.fall, w.nfall] {
-            out.push(Defaults { res: r, amount: dec!(1), string: s.into(), nf_id: 2, some: false });
+            out.push(Defaults { string: s.into(), ..base(r) });
         }
     }
     out
+}
+
+/// Hand-registered defaults for entry points whose valid arguments the automatic search cannot guess.
+/// Arguments are taken from the repo's own manifest builder where possible.
+fn hand_default(w: &W11, t: &Target) -> Option<G> {
+    let first_args = |m: TransactionManifestV1| -> Option<G> {
+        match m.instructions.into_iter().next()? {
+            InstructionV1::CallFunction(c) => Some(mv2g(&c.args)),
+            InstructionV1::CallMethod(c) => Some(mv2g(&c.args)),
+            _ => None,
+        }
+    };
+    let nf_roles = || NonFungibleResourceRoles {
+        mint_roles: mint_roles! { minter => rule!(allow_all); minter_updater => rule!(deny_all); },
+        burn_roles: burn_roles! { burner => rule!(allow_all); burner_updater => rule!(deny_all); },
+        ..Default::default()
+    };
+    let f = |r: ResourceAddress, a: Decimal| G::Bucket(BSpec::Amount(r, a));
+    match (t.bp.as_str(), t.ident.as_str()) {
+        ("Package", "publish_wasm_advanced") => {
+            first_args(ManifestBuilder::new().publish_package_advanced(None, wat2wasm(mc_ledger::menu::MINI_WAT), single_function_package_definition("Test", "f"), metadata_init!(), OwnerRole::None).build())
+        }
+        ("NonFungibleResourceManager", "create") => first_args(
+            ManifestBuilder::new().create_non_fungible_resource::<Vec<(NonFungibleLocalId, NfData)>, NfData>(OwnerRole::None, NonFungibleIdType::Integer, true, nf_roles(), metadata!(), None).build(),
+        ),
+        ("NonFungibleResourceManager", "create_with_initial_supply") => first_args(
+            ManifestBuilder::new()
+                .create_non_fungible_resource(OwnerRole::None, NonFungibleIdType::Integer, true, nf_roles(), metadata!(), Some(vec![(NonFungibleLocalId::integer(1), NfData { name: "one".into(), level: 1 })]))
+                .build(),
+        ),
+        ("NonFungibleResourceManager", "update_non_fungible_data") if t.receiver_label == "nfall" => Some(mv2g(&to_mv(&(NonFungibleLocalId::integer(2), "level".to_string(), 7u32)))),
+        ("NonFungibleResourceManager", "mint") if t.receiver_label == "nfall" => {
+            Some(mv2g(&to_mv(&(indexmap!(NonFungibleLocalId::integer(77) => (NfData { name: "new".into(), level: 7 },)),))))
+        }
+        ("ConsensusManager", "next_round") => Some(mv2g(&to_mv(&ConsensusManagerNextRoundInput {
+            round: Round::of(w.round + 1),
+            proposer_timestamp_ms: 1_000_000,
+            leader_proposal_history: LeaderProposalHistory { gap_round_leaders: vec![], current_leader: 0, is_fallback: false },
+        }))),
+        ("TwoResourcePool", "contribute") => Some(G::Tuple(vec![G::Tuple(vec![f(w.w.f18, dec!(1)), f(w.w.f2, dec!(1))])])),
+        ("MultiResourcePool", "contribute") => Some(G::Tuple(vec![G::Array(MVK::Custom(ManifestCustomValueKind::Bucket), vec![f(w.w.f18, dec!(1)), f(w.w.f2, dec!(1)), f(w.w.f0, dec!(1))])])),
+        ("TwoResourcePool", "instantiate") => Some(mv2g(&to_mv(&(OwnerRole::None, rule!(allow_all), (w.w.f18, w.w.f0), Option::<ManifestAddressReservation>::None)))),
+        ("MultiResourcePool", "instantiate") => Some(mv2g(&to_mv(&(OwnerRole::None, rule!(allow_all), indexset![w.w.f18, w.w.f0], Option::<ManifestAddressReservation>::None)))),
+        _ => None,
+    }
 }
 
 fn gen_for<'a>(disc: &'a Discovery, w: &'a W11, pools: &'a Pools, t: &Target, d: Defaults, small: bool) -> Gen<'a> {
@@ -363,32 +427,75 @@ fn gen_for<'a>(disc: &'a Discovery, w: &'a W11, pools: &'a Pools, t: &Target, d:
     Gen { schema, w, pools, d, target: (t.pkg, t.bp.clone()), small }
 }
 
+fn try_candidate(sim: &mut FSim, w: &W11, t: &Target, d: &Defaults, tree: &G, hand: bool) -> Option<(u32, Dflt)> {
+    let (pre, call, _, _) = build_call(w, t, (d.res, d.amount), tree, &Input::Tree(tree.clone()))?;
+    // the preamble alone must commit (the buckets / proofs of the default exist)
+    let has_reservation = pre.iter().any(|i| matches!(i, InstructionV1::AllocateGlobalAddress(_)));
+    if !pre.is_empty() && !has_reservation {
+        let nbuckets = pre.iter().filter(|i| matches!(i, InstructionV1::TakeFromWorktop(_) | InstructionV1::TakeNonFungiblesFromWorktop(_))).count() as u32;
+        let mut chk = pre.clone();
+        // (not DROP_ALL_PROOFS: that would also drop the signature proofs the final deposit needs)
+        chk.push(InstructionV1::DropNamedProofs(DropNamedProofs));
+        chk.push(InstructionV1::DropAuthZoneRegularProofs(DropAuthZoneRegularProofs));
+        for b in 0..nbuckets {
+            chk.push(InstructionV1::ReturnToWorktop(ReturnToWorktop { bucket_id: ManifestBucket(b) }));
+        }
+        match execute(sim, full_manifest(w, &chk, None), proofs_of(w, Role::User)) {
+            Outcome::Receipt(r) if is_success(&r) => {}
+            Outcome::Receipt(r) => {
+                if std::env::var("VERIF_C11_DUMP").is_ok() && d.res == w.w.f18 && !d.some {
+                    println!("PREAMBLE-FAILS {} : {}", t.label(), mc_core::truncate(&failure_text(&r), 300));
+                }
+                return None;
+            }
+            _ => return None,
+        }
+    }
+    let mut best: Option<(u32, Dflt)> = None;
+    for role in [Role::User, Role::System] {
+        let m = full_manifest(w, &pre, Some(call.clone()));
+        let (score, class, success, reached, auth, refused_form) = match execute(sim, m, proofs_of(w, role)) {
+            Outcome::Receipt(r) => {
+                let s = is_success(&r);
+                let reached = reached_native_code(&r);
+                let txt = failure_text(&r);
+                let refused = txt.contains("ReceiverNotMatch") || txt.contains("ObjectModuleDoesNotExist");
+                (if s { 3 } else if reached { 2 } else { 1 }, receipt_class(&r), s, reached, is_auth_failure(&r), refused)
+            }
+            Outcome::NotExecutable(_) => (0, "not-executable".to_string(), false, false, false, false),
+            Outcome::EscapedPanic(..) => (0, "escaped-panic".to_string(), false, false, false, false),
+        };
+        let cand = Dflt { tree: tree.clone(), defaults: d.clone(), role, class, success, reached, refused_form, hand_registered: hand };
+        if best.as_ref().map(|(s, _)| score > *s).unwrap_or(true) {
+            best = Some((score, cand));
+        }
+        if score == 3 || !auth {
+            break;
+        }
+    }
+    best
+}
+
 fn find_default(sim: &mut FSim, disc: &Discovery, w: &W11, pools: &Pools, t: &Target) -> Option<Dflt> {
     let mut best: Option<(u32, Dflt)> = None;
-    for d in contexts(w) {
+    let ctxs = contexts(w);
+    if let Some(tree) = hand_default(w, t) {
+        if let Some((score, d)) = try_candidate(sim, w, t, &ctxs[0], &tree, true) {
+            if score == 3 {
+                return Some(d);
+            }
+            best = Some((score, d));
+        }
+    }
+    for d in ctxs {
         let gen = gen_for(disc, w, pools, t, d.clone(), true);
-        let Some(tree) = gen.default(t.type_id, 0) else { return None };
-        let Some((pre, call, _, _)) = build_call(w, t, (d.res, d.amount), &tree, &Input::Tree(tree.clone())) else { continue };
-        for role in [Role::User, Role::System] {
-            let m = full_manifest(w, &pre, call.clone());
-            let (score, class, success, reached, auth) = match execute(sim, m, proofs_of(w, role)) {
-                Outcome::Receipt(r) => {
-                    let s = is_success(&r);
-                    let reached = reached_native_code(&r);
-                    (if s { 3 } else if reached { 2 } else { 1 }, receipt_class(&r), s, reached, is_auth_failure(&r))
-                }
-                Outcome::NotExecutable(_) => (0, "not-executable".to_string(), false, false, false),
-                Outcome::EscapedPanic(..) => (0, "escaped-panic".to_string(), false, false, false),
-            };
-            let cand = Dflt { tree: tree.clone(), defaults: d.clone(), role, class, success, reached };
+        let tree = gen.default(t.type_id, 0)?;
+        if let Some((score, cand)) = try_candidate(sim, w, t, &d, &tree, false) {
+            if score == 3 {
+                return Some(cand);
+            }
             if best.as_ref().map(|(s, _)| score > *s).unwrap_or(true) {
                 best = Some((score, cand));
-            }
-            if score == 3 {
-                return best.map(|b| b.1);
-            }
-            if !auth {
-                break;
             }
         }
     }
@@ -414,6 +521,11 @@ struct Item {
     family: &'static str,
 }
 
+/// thorough tier: 2-position deviations only for entry points whose 1-position set has at most this many members
+const DEV2_MAX_DEV1: usize = 60;
+/// safety net: items not started before this many seconds are skipped and the run reports exhaustive:false
+const WALL_CAP_S: f64 = 1500.0;
+
 const QUICK_ALPHABET: [u8; 12] = [0x00, 0x01, 0x02, 0x07, 0x0c, 0x20, 0x21, 0x22, 0x23, 0x5c, 0x80, 0xff];
 const THOROUGH_ALPHABET: [u8; 40] = [
     0x00, 0x01, 0x02, 0x03, 0x04, 0x05, 0x06, 0x07, 0x08, 0x09, 0x0a, 0x0b, 0x0c, 0x0d, 0x10, 0x1f, 0x20, 0x21, 0x22, 0x23, 0x24, 0x3f, 0x40, 0x4d, 0x5c, 0x7f, 0x80, 0x81, 0x82, 0x83, 0x84, 0x85, 0x86,
@@ -422,7 +534,7 @@ const THOROUGH_ALPHABET: [u8; 40] = [
 
 #[allow(clippy::too_many_arguments)]
 fn case_json(w: &W11, t: &Target, state: usize, role: Role, preamble: &[InstructionV1], call: &InstructionV1, shown: &str, args_hex: &str, family: &str) -> Value {
-    let m = full_manifest(w, preamble, call.clone());
+    let m = full_manifest(w, preamble, Some(call.clone()));
     json!({
         "target": t.label(),
         "state": state,
@@ -450,7 +562,7 @@ fn run_item(sh: &Shared, sim: &mut FSim, it: &Item, l: &mut Local) {
     };
     l.eval();
     let cj = || case_json(sh.w, t, it.state, d.role, &preamble, &call, &shown, &args_hex, it.family);
-    let m = full_manifest(sh.w, &preamble, call.clone());
+    let m = full_manifest(sh.w, &preamble, Some(call.clone()));
     match execute(sim, m, proofs_of(sh.w, d.role)) {
         Outcome::Receipt(r) => {
             if let Some((key, what)) = trapped(&r) {
@@ -569,19 +681,45 @@ fn instruction_cases(w: &W11) -> Vec<(String, Vec<InstructionV1>)> {
     out.push(("DropAuthZoneSignatureProofs".into(), InstructionV1::DropAuthZoneSignatureProofs(DropAuthZoneSignatureProofs)));
     out.push(("DropNamedProofs".into(), InstructionV1::DropNamedProofs(DropNamedProofs)));
     out.push(("DropAllProofs".into(), InstructionV1::DropAllProofs(DropAllProofs)));
-    let fee = acct("lock_fee", to_mv(&(dec!(500),)));
+    let fee = InstructionV1::CallMethod(CallMethod { address: ManifestGlobalAddress::Static(w.w.b.addr.into()), method_name: "lock_fee".into(), args: to_mv(&(dec!(500),)) });
     let tail = acct("deposit_batch", ManifestValue::Tuple { fields: vec![ManifestValue::Custom { value: ManifestCustomValue::Expression(ManifestExpression::EntireWorktop) }] });
-    out.into_iter()
+    let mut cases: Vec<(String, Vec<InstructionV1>)> = out
+        .into_iter()
         .map(|(label, x)| {
             let mut v = vec![fee.clone()];
             v.extend(pre.iter().cloned());
             v.push(x);
-            // leftovers: named buckets go back to the worktop where they still exist, then everything is deposited
-            v.push(InstructionV1::DropAllProofs(DropAllProofs));
+            // leftovers: proofs are dropped (not the signature proofs), then everything on the worktop is deposited
+            v.push(InstructionV1::DropNamedProofs(DropNamedProofs));
+            v.push(InstructionV1::DropAuthZoneRegularProofs(DropAuthZoneRegularProofs));
             v.push(tail.clone());
             (label, v)
         })
-        .collect()
+        .collect();
+    // minimal auth zones: every ordered pair of {fungible proof, non-fungible proof} (and singletons), then one
+    // composition instruction
+    let pf = acct("create_proof_of_amount", to_mv(&(w.fall, dec!(1))));
+    let pn = acct("create_proof_of_non_fungibles", to_mv(&(w.nfall, ids(&[1]))));
+    let zones: Vec<(&str, Vec<InstructionV1>)> = vec![("[F]", vec![pf.clone()]), ("[N]", vec![pn.clone()]), ("[F,N]", vec![pf.clone(), pn.clone()]), ("[N,F]", vec![pn.clone(), pf.clone()])];
+    for (zl, zone) in zones {
+        let compositions: Vec<(String, InstructionV1)> = vec![
+            ("CreateProofFromAuthZoneOfAmount(fall,1)".into(), InstructionV1::CreateProofFromAuthZoneOfAmount(CreateProofFromAuthZoneOfAmount { resource_address: w.fall, amount: dec!(1) })),
+            ("CreateProofFromAuthZoneOfAmount(nfall,1)".into(), InstructionV1::CreateProofFromAuthZoneOfAmount(CreateProofFromAuthZoneOfAmount { resource_address: w.nfall, amount: dec!(1) })),
+            ("CreateProofFromAuthZoneOfAll(fall)".into(), InstructionV1::CreateProofFromAuthZoneOfAll(CreateProofFromAuthZoneOfAll { resource_address: w.fall })),
+            ("CreateProofFromAuthZoneOfAll(nfall)".into(), InstructionV1::CreateProofFromAuthZoneOfAll(CreateProofFromAuthZoneOfAll { resource_address: w.nfall })),
+            (
+                "CreateProofFromAuthZoneOfNonFungibles(nfall,[1])".into(),
+                InstructionV1::CreateProofFromAuthZoneOfNonFungibles(CreateProofFromAuthZoneOfNonFungibles { resource_address: w.nfall, ids: ids(&[1]) }),
+            ),
+        ];
+        for (cl, c) in compositions {
+            let mut v = vec![fee.clone()];
+            v.extend(zone.iter().cloned());
+            v.push(c);
+            cases.push((format!("minimal auth zone {zl}: {cl}"), v));
+        }
+    }
+    cases
 }
 
 fn run_instruction_case(w: &W11, sim: &mut FSim, state: usize, label: &str, ins: &[InstructionV1], l: &mut Local) {
@@ -671,7 +809,7 @@ pub fn run(ctx: Ctx) -> ! {
     if std::env::var("VERIF_C11_DUMP").is_ok() {
         for (t, d) in disc.targets.iter().zip(dflts.iter()) {
             match d {
-                Some(d) => println!("DEFAULT {:60} {:?} ok={} reached={} {} ctx.res={:?} some={} str={}", t.label(), d.role, d.success, d.reached, d.class, d.defaults.res, d.defaults.some, d.defaults.string),
+                Some(d) => println!("DEFAULT {:60} {:?} ok={} reached={} hand={} refused={} {}", t.label(), d.role, d.success, d.reached, d.hand_registered, d.refused_form, d.class),
                 None => println!("DEFAULT {:60} NONE", t.label()),
             }
         }
@@ -692,11 +830,18 @@ pub fn run(ctx: Ctx) -> ! {
         let gen = gen_for(&disc, &w, &pools, t, d.defaults.clone(), quick);
         positions_total += gen.positions(t.type_id, &d.tree) as u64;
         // (a) deviations
+        if d.refused_form {
+            for (si, _) in snaps.iter().enumerate() {
+                items.push(Item { target: ti, state: si, input: Input::Tree(d.tree.clone()), family: "default" });
+            }
+            per_target_counts.push((t.label(), 1, 0));
+            continue;
+        }
         let dev1 = gen.deviations(t.type_id, &d.tree, 1, 0);
         let mut trees: Vec<G> = vec![d.tree.clone()];
         trees.extend(dev1.iter().cloned());
         let n1 = trees.len();
-        if !quick && dev1.len() <= 400 {
+        if !quick && dev1.len() <= DEV2_MAX_DEV1 {
             for g in gen.deviations(t.type_id, &d.tree, 2, 0) {
                 trees.push(g);
             }
@@ -758,7 +903,18 @@ pub fn run(ctx: Ctx) -> ! {
 
     // ---- run
     let sh = Shared { w: &w, disc: &disc, dflts: &dflts };
-    par_for(&ctx, &items, |it, l| with_sim(&snaps, it.state, |s| run_item(&sh, s, it, l)));
+    let skipped = std::sync::atomic::AtomicU64::new(0);
+    par_for(&ctx, &items, |it, l| {
+        if ctx.elapsed_s() > WALL_CAP_S {
+            skipped.fetch_add(1, std::sync::atomic::Ordering::Relaxed);
+            return;
+        }
+        with_sim(&snaps, it.state, |s| run_item(&sh, s, it, l))
+    });
+    let skipped = skipped.load(std::sync::atomic::Ordering::Relaxed);
+    if skipped > 0 {
+        ctx.note(format!("wall cap of {WALL_CAP_S} s hit: {skipped} of {} generated inputs were not executed", items.len()));
+    }
 
     // ---- typed manifest instructions, from every state
     let icases = instruction_cases(&w);
@@ -809,14 +965,17 @@ pub fn run(ctx: Ctx) -> ! {
     cov.insert("state_descriptions".into(), json!(["base", "after 2 epoch changes + frozen vaults + recovery initiated + primary role locked", "restrictive account deposit rules + validator registered/unregistered, not accepting stake + burnt nf + emptied pool"]));
     cov.insert("default_tree_positions".into(), json!(positions_total));
     cov.insert("mutation_alphabet_size".into(), json!(alphabet.len() as u64));
-    cov.insert("deviation_bound".into(), json!(if quick { "<= 1 node position" } else { "<= 2 node positions where the <=1 set has <= 400 members, else <= 1" }));
+    cov.insert("deviation_bound".into(), json!(if quick { "<= 1 node position".to_string() } else { format!("<= 2 node positions (base state) where the <=1 set has <= {DEV2_MAX_DEV1} members, else <= 1") }));
+    cov.insert("inputs_generated".into(), json!(items.len() as u64));
+    cov.insert("inputs_skipped_by_wall_cap".into(), json!(skipped));
+    cov.insert("hand_registered_defaults".into(), json!(disc.targets.iter().zip(dflts.iter()).filter(|(_, d)| d.as_ref().map(|d| d.hand_registered).unwrap_or(false)).map(|(t, _)| t.label()).collect::<Vec<_>>()));
     let classes = ctx.classes();
     let nontrivial: u64 = classes.iter().filter(|(k, _)| k.starts_with("commit-success") || k.starts_with("commit-failure:ApplicationError")).map(|(_, v)| *v).sum();
     ctx.finish(
         Level::Exploration,
         "every generated input is distinct by construction (distinct trees / distinct mutated byte strings per entry point and state); non-trivial = the call passed argument decoding, schema validation and auth, i.e. the native function body ran (outcome success or an ApplicationError of the blueprint)",
         nontrivial,
-        true,
+        skipped == 0,
         cov,
         &[
             "transactions are test transactions (no signature validation); initial proofs = signatures of accounts A and B and the two validator owner badges; entry points whose default is refused for missing authority are retried with the validator/protocol system proofs",
